@@ -1,6 +1,7 @@
 package c05
 
 import (
+	"runtime"
 	"fmt"
 	"io"
 	"log"
@@ -36,6 +37,7 @@ type cfg struct {
 	RTTus       int    `json:"rtt_us"`       // peer delays its ACKs by this much
 	PartialAcks bool   `json:"partial_acks"` // ACKs that fall inside segments (ack division)
 	DupAcks     int    `json:"dup_acks"`
+	Burst       bool   `json:"burst"` // the three duplicate ACKs are identical and arrive back to back
 	OwnISS      uint32 `json:"own_iss"`
 	LateMs      int    `json:"late_ms"`    // latewrite: pause between the ACK and the second write
 	Shutdown    bool   `json:"shutdown"`   // silent: the write side is shut down right after the write (a FIN is queued behind the data)
@@ -72,6 +74,7 @@ func gen(seed int64, k int) cfg {
 			c.Lost = 0
 		}
 		c.DupAcks = 3 + r.Intn(4)
+		c.Burst = r.Chance(1, 3)
 	case "cwnd":
 		c.Flight = 20 + r.Intn(200)
 		c.PartialAcks = r.Chance(1, 2)
@@ -358,6 +361,53 @@ func scenario(c cfg) {
 		}
 		una := absSeg(c.Lost)
 		var sack [][2]uint32
+		if c.Burst {
+			// three byte-identical duplicate ACKs (no SACK blocks, one timestamp value) arrive back
+			// to back: with one processor all three sit in the endpoint's segment queue before its
+			// goroutine looks at the first. Each of them is an ACK received; the third must draw
+			// the retransmission.
+			if c.RTTus > 0 {
+				time.Sleep(time.Duration(c.RTTus) * time.Microsecond)
+				rawpeer.Settle()
+				for _, d := range note(conn.Take(), "while the ACKs were in flight") {
+					if d.rel <= highestAck {
+						timeoutDuringAcks = true
+					}
+				}
+			}
+			for i := 0; i < 3; i++ {
+				if una > highestAck {
+					highestAck = una
+				} else if una == highestAck && maxEnd > highestAck {
+					dupAcksDelivered++
+				}
+				acksDelivered++
+			}
+			seg := conn.Seg(0, una, rfc.ACK, 65535, nil, nil)
+			old := runtime.GOMAXPROCS(1)
+			for i := 0; i < 3; i++ {
+				conn.P.SendNoSettle(seg)
+			}
+			runtime.GOMAXPROCS(old)
+			rawpeer.Settle()
+			rexUna := 0
+			for _, d := range note(conn.Take(), "after three identical duplicate ACKs back to back") {
+				if d.rel == una {
+					rexUna++
+				}
+			}
+			tr("burst of three identical duplicate ACKs ack=%d -> %d retransmissions of that offset", una, rexUna)
+			if timeoutDuringAcks {
+				run.Count("fastrexmit_skipped_timeout_came_first", 1)
+			} else if rexUna == 0 {
+				viol("fast-retransmit/missing-after-burst", fmt.Sprintf("three identical duplicate ACKs for offset %d arrived back to back and nothing was retransmitted at that instant (flight %d segments, lost #%d)", una, c.Flight, c.Lost))
+				return
+			} else {
+				run.Count("fast_retransmits_judged", 1)
+				run.Count("fast_retransmits_after_a_burst_of_identical_duplicate_acks", 1)
+			}
+			c.DupAcks = 0
+		}
 		for i := 1; i <= c.DupAcks && !bad; i++ {
 			sack = [][2]uint32{{conn.ISS + 1 + uint32(una+mss), conn.ISS + 1 + uint32(una+int64(i+1)*mss)}}
 			tBefore := time.Since(time.Time{}) // unused
